@@ -979,8 +979,14 @@ def load(f, **options):  # type: (typing.IO, **typing.Any) -> canmatrix.CanMatri
             db.env_vars[long_name] = db.env_vars.pop(env_var_name)
     for ecu in db.ecus:
         if ecu.attributes.get("SystemNodeLongSymbol", None) is not None:
+            short_name = ecu.name
             ecu.name = ecu.attributes.get("SystemNodeLongSymbol")[1:-1]
             ecu.del_attribute("SystemNodeLongSymbol")
+            # BO_, BO_TX_BU_ and the receiver lists of SG_ name the ECU by its short symbol: follow the rename
+            for frame in db.frames:
+                frame.transmitters = [ecu.name if name == short_name else name for name in frame.transmitters]
+                for signal in frame.signals:
+                    signal.receivers = [ecu.name if name == short_name else name for name in signal.receivers]
     for frame in db.frames:
         frame.cycle_time = convert_or_default(lambda value: int(float(value)), frame.attributes.get("GenMsgCycleTime", 0), 0)
         if frame.attributes.get("SystemMessageLongSymbol", None) is not None:
@@ -994,6 +1000,7 @@ def load(f, **options):  # type: (typing.IO, **typing.Any) -> canmatrix.CanMatri
         #     frame.id -= 0x80000000
         #     frame.extended = 1
 
+        renamed_signals = {}  # type: typing.Dict[str, str]
         for signal in frame.signals:
             default_value = signal.phys2raw(None)
             if "GenSigStartValue" in db.signal_defines \
@@ -1006,8 +1013,13 @@ def load(f, **options):  # type: (typing.IO, **typing.Any) -> canmatrix.CanMatri
             signal.initial_value = (gen_sig_start_value * signal.factor) + signal.offset
             signal.cycle_time = convert_or_default(int, signal.attributes.get("GenSigCycleTime", 0), 0)
             if signal.attribute("SystemSignalLongSymbol") is not None:
-                signal.name = signal.attribute("SystemSignalLongSymbol")[1:-1]
+                renamed_signals[signal.name] = signal.attribute("SystemSignalLongSymbol")[1:-1]
+                signal.name = renamed_signals[signal.name]
                 signal.del_attribute("SystemSignalLongSymbol")
+        # SG_MUL_VAL_ names the multiplexer by its short symbol: follow the rename
+        for signal in frame.signals:
+            if signal.muxer_for_signal in renamed_signals:
+                signal.muxer_for_signal = renamed_signals[signal.muxer_for_signal]
     for define in db.global_defines:
         if db.global_defines[define].type == "STRING":
             if define in db.attributes:
